@@ -155,6 +155,8 @@ fn run_replay(args: &[String]) -> i32 {
         ctx.only = Some((f.to_string(), i));
     }
     ctx.replay_case = Some(case);
+    *monitor::REPLAY_INFO.lock().unwrap() = Some((prop.clone(), path.clone()));
+    monitor::spawn_cpu_watchdog(10.0, format!("{}.watchdog", path));
     (p.run)(&mut ctx);
     println!(
         "replay of {}: {} case(s) executed, {} violation(s)",
